@@ -46,9 +46,11 @@ fn exec(p: &mut Pair, op: &Op) -> Vec<u8> {
             // bit 2: a document type the holder does not own (gives documentErrors)
             let all = [DOCS[0], DOCS[1], "org.example.unheld"];
             let chosen: Vec<&str> = all.iter().enumerate().filter(|(i, _)| mask & (1 << i) != 0).map(|(_, d)| *d).collect();
+            // bit 3: the large element is requested too (a staged response of more than 4 KiB)
+            let elems: &[&str] = if mask & 8 != 0 { &["family_name", "age_over_18", "zzz", "portrait"] } else { &["family_name", "age_over_18", "zzz"] };
             let reqs: Vec<ItemsRequest> = chosen.iter().map(|d| ItemsRequest { doc_type: d.to_string(),
-                namespaces: sess::simple_namespaces(&["family_name", "age_over_18", "zzz"]), request_info: None }).collect();
-            p.dev.prepare_response(&reqs, sess::permit_all(&chosen, &["family_name", "age_over_18", "zzz"]));
+                namespaces: sess::simple_namespaces(elems), request_info: None }).collect();
+            p.dev.prepare_response(&reqs, sess::permit_all(&chosen, elems));
             vec![]
         }
         Op::GetNext => match p.dev.get_next_signature_payload() { None => vec![0], Some((id, pl)) => { let mut v = id.as_bytes().to_vec(); v.extend_from_slice(pl); v } },
@@ -76,7 +78,7 @@ fn random_op(ctx: &mut Ctx) -> Op {
         0..=14 => Op::NewRequest(ctx.rng.gen()),
         15..=29 => Op::ToDev(if ctx.rng.gen_bool(0.7) { 0 } else { ctx.rng.gen() }, if ctx.rng.gen_bool(0.85) { 0 } else { ctx.rng.gen() }),
         30..=34 => Op::Malformed(ctx.rng.gen()),
-        35..=49 => Op::Prepare(ctx.rng.gen_range(0..8)),
+        35..=49 => Op::Prepare(ctx.rng.gen_range(0..16)),
         50..=55 => Op::GetNext,
         56..=72 => Op::Submit(ctx.rng.gen_bool(0.85)),
         73..=76 => Op::Ready,
@@ -154,7 +156,10 @@ pub fn run(ctx: &mut Ctx) {
     for hno in 0..n_hist {
         let mut rng2: rand_chacha::ChaCha8Rng = rand::SeedableRng::seed_from_u64(ctx.rng.gen());
         let key = world::key_from(&mut rng2);
-        let mdocs = DOCS.iter().enumerate().map(|(i, d)| world::issue(&pki, d, sess::default_ns_values(),
+        // every document also holds a large element (a portrait): responses that carry it exceed 4 KiB
+        let mut values = sess::default_ns_values();
+        values.get_mut(sess::NS).unwrap().insert("portrait".to_string(), ciborium::Value::Bytes((0..5000u32).map(|i| (i * 7 + hno as u32) as u8).collect()));
+        let mdocs = DOCS.iter().enumerate().map(|(i, d)| world::issue(&pki, d, values.clone(),
             [DigestAlgorithm::SHA256, DigestAlgorithm::SHA384, DigestAlgorithm::SHA512][(hno + i) % 3], i % 2 == 0, &key).unwrap()).collect();
         let docs = world::documents_of(mdocs);
         // --- Init and Engaged: restored copies behave as the originals
@@ -169,12 +174,16 @@ pub fn run(ctx: &mut Ctx) {
         let e0 = eng.stringify().unwrap();
         let ok_init = fix0 && ble_eq && qr == qr_a && e0 == eng_a.stringify().unwrap();
         ctx.emit.line("spec", "spec:init-engaged", format!("spec.eq {} true", ok_init), "true".into(), serde_json::json!({"what": "SessionManagerInit stringify/parse: fixed point, same BLE ident, same QR, same engaged state"}));
-        let reg = if hno % 2 == 0 { pki.iaca_registry() } else { TrustAnchorRegistry::default() };
+        // reader trust configurations: the current root; none; the current root listed after its lapsed predecessor (same name and key)
+        let lapsed_root = { let mut sp = world::root_spec("CN=iaca,C=US", &pki.iaca_key); sp.not_before = -86400 * 400; sp.not_after = -86400; sp.serial = 7; world::build_cert(&sp, &pki.iaca_key, &pki.iaca_key) };
+        let reg = match hno % 3 { 0 => pki.iaca_registry(), 1 => TrustAnchorRegistry::default(),
+            _ => pki.registry(&[(&lapsed_root, isomdl::definitions::x509::trust_anchor::TrustPurpose::Iaca), (&pki.iaca, isomdl::definitions::x509::trust_anchor::TrustPurpose::Iaca)]) };
         let (rdr, est, _) = reader::SessionManager::establish_session(qr, sess::simple_namespaces(&["family_name"]), reg).unwrap();
         let se: SessionEstablishment = cbor::from_slice(&est).unwrap();
         let eng_b = device::SessionManagerEngaged::parse(e0.clone()).unwrap();
         let fix1 = eng_b.stringify().unwrap() == e0;
-        let dreg = if hno % 3 == 0 { pki.reader_registry() } else { TrustAnchorRegistry::default() };
+        let lapsed_reader_ca = { let mut sp = world::root_spec("CN=readerca,C=US", &pki.reader_ca_key); sp.not_before = -86400 * 400; sp.not_after = -86400; sp.serial = 8; world::build_cert(&sp, &pki.reader_ca_key, &pki.reader_ca_key) };
+        let dreg = match hno % 4 { 0 => pki.reader_registry(), 1 => pki.registry(&[(&lapsed_reader_ca, isomdl::definitions::x509::trust_anchor::TrustPurpose::ReaderCa), (&pki.reader_ca, isomdl::definitions::x509::trust_anchor::TrustPurpose::ReaderCa)]), _ => TrustAnchorRegistry::default() };
         let (dev, out_a) = eng.process_session_establishment(se.clone(), dreg.clone()).unwrap();
         let (dev_b, out_b) = eng_b.process_session_establishment(se, dreg).unwrap();
         let ok_eng = fix1 && dev.stringify().unwrap() == dev_b.stringify().unwrap() && serde_json::to_vec(&out_a).unwrap() == serde_json::to_vec(&out_b).unwrap();
@@ -188,7 +197,7 @@ pub fn run(ctx: &mut Ctx) {
         let mut script: Vec<Op> = vec![];
         while script.len() < len {
             if ctx.rng.gen_bool(0.55) {
-                let mask = ctx.rng.gen_range(0..8u8);
+                let mask = ctx.rng.gen_range(0..16u8);
                 script.push(Op::NewRequest(ctx.rng.gen()));
                 script.push(Op::ToDev(0, 0));
                 script.push(Op::Prepare(mask));
@@ -205,8 +214,16 @@ pub fn run(ctx: &mut Ctx) {
             for which in 0..3 {
                 let mut a = base.clone();
                 let mut b = base.clone();
-                if which != 1 { b.dev = device::SessionManager::parse(a.dev.stringify().unwrap()).unwrap(); }
-                if which != 0 { b.rdr = reader::SessionManager::parse(a.rdr.stringify().unwrap()).unwrap(); }
+                // a stored state that cannot be loaded again is the plainest violation: reported with the script, not a harness crash
+                let who = ["device", "reader", "both"][which];
+                let mut failed: Option<String> = None;
+                if which != 1 { match device::SessionManager::parse(a.dev.stringify().unwrap()) { Ok(d) => b.dev = d, Err(e) => failed = Some(format!("device: {e}")) } }
+                if which != 0 { match reader::SessionManager::parse(a.rdr.stringify().unwrap()) { Ok(r) => b.rdr = r, Err(e) => failed = Some(format!("reader: {e}")) } }
+                if let Some(e) = failed {
+                    ctx.emit.line("spec", &format!("spec:restore-loads:{}", who), "spec.eq parse-failed parse-ok".into(), "true".into(),
+                        serde_json::json!({"script": format!("{:?}", script), "boundary": i, "restored": who, "error": e, "msg_hex": format!("{hno}-{i}-{which}-load")}));
+                    continue;
+                }
                 // thorough: further restores at a random subset of later boundaries
                 let extra: Vec<bool> = (i..len).map(|_| ctx.thorough && ctx.rng.gen_bool(0.3)).collect();
                 let mut outs_a = vec![]; let mut outs_b = vec![];
@@ -214,13 +231,14 @@ pub fn run(ctx: &mut Ctx) {
                     outs_a.push(exec(&mut a, op));
                     outs_b.push(exec(&mut b, op));
                     if extra[k] {
-                        b.dev = device::SessionManager::parse(b.dev.stringify().unwrap()).unwrap();
-                        b.rdr = reader::SessionManager::parse(b.rdr.stringify().unwrap()).unwrap();
+                        match (device::SessionManager::parse(b.dev.stringify().unwrap()), reader::SessionManager::parse(b.rdr.stringify().unwrap())) {
+                            (Ok(d), Ok(r)) => { b.dev = d; b.rdr = r; }
+                            _ => { outs_b.push(b"parse-failed".to_vec()); break; }
+                        }
                     }
                 }
                 outs_a.extend(final_state(&a)); outs_b.extend(final_state(&b));
                 let (da, db) = (digest(&outs_a), digest(&outs_b));
-                let who = ["device", "reader", "both"][which];
                 let first_diff = outs_a.iter().zip(outs_b.iter()).position(|(x, y)| x != y);
                 ctx.emit.line("spec", &format!("spec:twin:{}", who),
                     format!("spec.eq {da} {db}"), "true".into(),
